@@ -36,7 +36,8 @@ verus! {
             pre is Some ==> anchored is No && aut.has_pre() && *(pre->Some_0) == aut.pre_s(),
             pre is None ==> !aut.has_pre() || anchored is Yes,
             aut.valid_s(sid), aut.depth_s(sid) <= at - input.span.start,
-            anchored is Yes && at > input.span.start ==> !aut.startst_s(sid),
+            anchored is Yes ==> aut.areach_s(sid),
+            anchored is Yes && at > input.span.start ==> aut.dead_s(sid) || !aut.startst_s(sid),
             pre is Some && mat is Some ==> aut.post_match(sid),
             earliest ==> mat is None,
             // C19: one transition per byte — `steps` counts next_state calls
